@@ -116,6 +116,16 @@ def expRewards (T R : List XRat) (nrows S : Nat) : Option (List Rat) :=
 def closeList (a : List Rat) (b : List XRat) : Bool :=
   a.length == b.length && (a.zip b).all fun (x, y) => match y with | .fin q => closeQ (1 / 1000000000) x q | _ => false
 
+/-- array replay of a write trace (linear time); equals `tableList` (cross-checked below on small tables, and the
+    in-bounds guard is redundant by `parse_writes_in_bounds`) -/
+def replay (ws : List Write) (D1 D2 D3 : Nat) : List XRat :=
+  let arr := ws.foldl (fun (a : Array XRat) w =>
+      if w.d1 < D1 && w.a < D2 && w.d3 < D3 then a.set! (offset D2 D3 w) w.v else a) (Array.replicate (D1 * D2 * D3) (XRat.fin 0))
+  arr.toList
+
+def tableOf (ws : List Write) (D1 D2 D3 : Nat) : List XRat :=
+  if D1 * D2 * D3 ≤ 64 then tableList ws D1 D2 D3 else replay ws D1 D2 D3
+
 def containsHex : Str → Bool
   | '0' :: x :: r => (x == 'x' || x == 'X') || containsHex (x :: r)
   | _ :: r => containsHex r
@@ -151,10 +161,11 @@ def parseCmd : P String := do
     | .ok r, .ok i =>
         let p := r.pre
         let v := v.diffIf (p.S != i.S || p.A != i.A || (isP && p.O != i.O)) s!"CassandraParser sizes model={p.S},{p.A},{p.O} impl={i.S},{i.A},{i.O}"
+        let v := v.diffIf (p.S * p.A * p.S ≤ 64 && replay r.st.wT p.S p.A p.S != tableList r.st.wT p.S p.A p.S) "driver replay differs from tableList"
         let v := v.diffIf (roundX p.disc != i.disc) s!"CassandraParser discount model={p.disc} impl={i.disc}"
-        let v := v.diffIf ((tableList r.st.wT p.S p.A p.S).map roundX != i.T) s!"CassandraParser T model={(tableList r.st.wT p.S p.A p.S)} impl={i.T}"
-        let v := v.diffIf ((tableList r.st.wR p.S p.A p.S).map roundX != i.R) s!"CassandraParser R model={(tableList r.st.wR p.S p.A p.S)} impl={i.R}"
-        v.diffIf (isP && (tableList r.st.wW p.S p.A p.O).map roundX != i.W) s!"CassandraParser W model={(tableList r.st.wW p.S p.A p.O)} impl={i.W}"
+        let v := v.diffIf ((tableOf r.st.wT p.S p.A p.S).map roundX != i.T) s!"CassandraParser T model={(tableOf r.st.wT p.S p.A p.S)} impl={i.T}"
+        let v := v.diffIf ((tableOf r.st.wR p.S p.A p.S).map roundX != i.R) s!"CassandraParser R model={(tableOf r.st.wR p.S p.A p.S)} impl={i.R}"
+        v.diffIf (isP && (tableOf r.st.wW p.S p.A p.O).map roundX != i.W) s!"CassandraParser W model={(tableOf r.st.wW p.S p.A p.O)} impl={i.W}"
   -- the constructor outcome predicted from the implementation's own parse (model of the Model checks)
   let (v, illc) := match ip with
     | .error c => (v.diffIf (match ic with | .error c' => c' != c | .ok _ => true) s!"parseCassandra outcome differs from the parser's ({c})", false)
